@@ -249,6 +249,17 @@ pub fn gen_c07(rng: &mut Rng, tier: Tier) -> NetProgram {
             prog.modules[v].beats.sort_by_key(|b| b.at_ns);
         }
     }
+    // a handler may panic right after it handed packets to the channel (caught by the module's stereotype): what the
+    // channel accepted, put on the wire or queued before the panic is accounted for all the same
+    if rng.chance(1, 8) {
+        let v = rng.usize(prog.modules.len());
+        let nb = prog.modules[v].beats.len();
+        if nb > 0 {
+            let bi = rng.usize(nb);
+            prog.modules[v].beats[bi].acts.push(Act::Panic);
+            prog.modules[v].catching = true;
+        }
+    }
     prog.order = (0..prog.modules.len() as u32).collect();
     cq(rng, &mut prog, slowest_gap);
     if prog.t_ns == 0 && slowest_gap > SEC {
@@ -371,8 +382,17 @@ pub fn gen_c14(rng: &mut Rng, _tier: Tier) -> NetProgram {
         for _ in 0..rng.small(3) {
             spec.pes.push(gen_pe(rng, true));
         }
+        // an element may request the shutdown of its module while it passes the message on
+        if rng.chance(1, 8) {
+            let at = rng.usize(spec.pes.len() + 1);
+            spec.pes.insert(at, PeSpec { mode: 5, m: 1 + rng.below(3) as u32, r: rng.below(3) as u32, send_hook: 0, gate: rng.below(3) as u32 });
+        }
         spec.pes_prepend = rng.chance(1, 2);
         spec.gates = vec![("p".into(), 2)];
+        // emissions from the start-up callback (also the one of a restart)
+        if rng.chance(1, 3) {
+            spec.start_acts = (0..1 + rng.small(2)).map(|_| Act::Send { gate: rng.below(2) as u32, delay_ns: 0, body: 0 }).collect();
+        }
         prog.modules.push(spec);
     }
     prog.order = (0..nmod as u32).collect();
@@ -757,6 +777,10 @@ pub fn gen_c16(rng: &mut Rng, tier: Tier) -> NetProgram {
         if let Some(c) = &mut l.chan {
             c.bitrate = if bulk { *rng.pick(&[1_000_000_000u64, 10_000_000_000]) } else { *rng.pick(&[10_000u64, 1_000_000, 100_000_000]) };
             c.queue = *rng.pick(&[-2i64, -1, 0, 200, 1200]);
+            // jitter delays the arrival, it is not part of the size the channel charges for
+            if rng.chance(1, 4) {
+                c.jitter_ns = *rng.pick(&[1_000u64, 1_000_000, 300_000_000]);
+            }
         }
     }
     if bulk {
